@@ -157,6 +157,7 @@ func (g *Generator) generateMockMethod(
 	gf.P()
 
 	// Fill response fields
+	g.mockMessages = 0
 	g.generateMockFieldAssignments(gf, method.Output, "resp")
 
 	gf.P("return resp, nil")
@@ -165,6 +166,9 @@ func (g *Generator) generateMockMethod(
 
 	return nil
 }
+
+// maxMockMessages bounds the number of messages populated in one mock response.
+const maxMockMessages = 2000
 
 // generateMockFieldAssignments generates field assignments for a message.
 func (g *Generator) generateMockFieldAssignments(
@@ -184,6 +188,13 @@ func (g *Generator) generateMockFieldAssignments(
 	}
 	g.mockVisiting[message.Desc.FullName()] = true
 	defer delete(g.mockVisiting, message.Desc.FullName())
+
+	// Densely connected message types have a factorial number of reference paths: once a
+	// response holds this many messages the remaining ones stay at their zero value.
+	g.mockMessages++
+	if g.mockMessages > maxMockMessages {
+		return
+	}
 
 	for _, field := range message.Fields {
 		fieldName := field.GoName
